@@ -147,19 +147,46 @@ theorem C12_accept (cfg : Config) (ops : StoreOps σ) (pre : List AnnHook) (st :
         | error e => rw [hra] at h; cases h
         | ok cr' => rw [hra] at h; simp only at h; rw [h]
 
-/-- **Applied exactly once, or not at all when marked**: the post-hook phase runs the configured
-post-hooks and then the swarm interaction once — unless a post-hook fails (then the rest of the
-chain, including the swarm interaction, is skipped: reading R3) or the skip flag is set (then
-the store is untouched). -/
+theorem runPost_log (req : AnnReq) (resp : AnnResp) (post : List AnnHook) (i : Nat) (ctx : Ctx) :
+    (runPost req resp post i ctx).1 = (List.range post.length).map (· + i) := by
+  induction post generalizing i ctx with
+  | nil => simp [runPost]
+  | cons h rest ih =>
+    simp only [runPost, ih, List.length_cons, List.range_succ_eq_map, List.map_cons, List.map_map, Nat.zero_add]
+    congr 1
+    apply List.map_congr_left
+    intro a _
+    simp only [Function.comp]
+    omega
+
+/-- **Applied exactly once, whatever the post-hooks do** (repair D28; the reading R3 "a failing post-hook stops the
+chain, swarm interaction included" is withdrawn): every post-hook runs, in order, then the swarm interaction runs
+exactly once — for every chain of accepting and failing post-hooks — and it leaves the store alone exactly when the
+context it sees carries the skip flag. A post-hook that fails does not change the context. -/
 theorem C12_after (ops : StoreOps σ) (post : List AnnHook) (st : σ) (ctx : Ctx) (req : AnnReq) (resp : AnnResp) :
-    (∀ log e, runAnn post req 0 ctx resp = (log, .error e) → afterAnnounce ops post st ctx req resp = (log, st)) ∧
-    (∀ log ctx' resp', runAnn post req 0 ctx resp = (log, .ok (ctx', resp')) →
-        afterAnnounce ops post st ctx req resp = (log ++ [post.length], swarmInteraction ops st ctx' req) ∧
-        (ctx'.skipSwarmInteraction = true → swarmInteraction ops st ctx' req = st)) := by
-  constructor
-  · intro log e h; simp [afterAnnounce, h]
-  · intro log ctx' resp' h
-    refine ⟨by simp [afterAnnounce, h], fun hs => by simp [swarmInteraction, hs]⟩
+    (afterAnnounce ops post st ctx req resp).1 = List.range (post.length + 1) ∧
+    (afterAnnounce ops post st ctx req resp).2 = swarmInteraction ops st (runPost req resp post 0 ctx).2 req ∧
+    ((runPost req resp post 0 ctx).2.skipSwarmInteraction = true → (afterAnnounce ops post st ctx req resp).2 = st) := by
+  refine ⟨?_, rfl, fun hs => by simp [afterAnnounce, swarmInteraction, hs]⟩
+  simp only [afterAnnounce, runPost_log, Nat.add_zero, List.map_id']
+  rw [List.range_succ]
+
+/-- post-hooks that all fail change nothing about what is applied: the swarm sees the announce as the pre-phase
+left it -/
+theorem C12_failing_posthooks_do_not_matter (ops : StoreOps σ) (post : List AnnHook) (st : σ) (ctx : Ctx) (req : AnnReq) (resp : AnnResp)
+    (hfail : ∀ h ∈ post, ∀ c, ∃ e, h c req resp = .error e) :
+    (afterAnnounce ops post st ctx req resp).2 = swarmInteraction ops st ctx req := by
+  have key : ∀ (post : List AnnHook) (i : Nat), (∀ h ∈ post, ∀ c, ∃ e, h c req resp = .error e) →
+      (runPost req resp post i ctx).2 = ctx := by
+    intro post
+    induction post with
+    | nil => intro i _; rfl
+    | cons h rest ih =>
+      intro i hf
+      obtain ⟨e, he⟩ := hf h (by simp) ctx
+      simp only [runPost, he]
+      exact ih (i + 1) (fun h' hh c => hf h' (by simp [hh]) c)
+  simp only [afterAnnounce, key post 0 hfail]
 
 /-- **Storage failure**: with the store unreachable, an announce that every pre-hook accepts (and that no
 pre-hook marked to skip the response) fails with the internal error after the whole chain has run — whatever the
